@@ -1,0 +1,25 @@
+//go:build verif
+
+// Contracts for package limit, read by /verif's gcv (comment-only file; never compiled into
+// anything unless the verif tag is set, and then it contains no code).
+package limit
+
+//@ type AIMDLimit
+//@   guarded mu: limit, listeners
+//@   immutable: name, increaseBy, backOffRatio, registry, commonSampler
+//@   inv[C04] lower: this.limit >= 1
+//@   inv cfg: this.increaseBy >= 1 && 0.0 < this.backOffRatio && this.backOffRatio <= 1.0
+
+//@ func (*AIMDLimit).notifyListeners
+//@   requires nn: l != nil
+//@   assigns nothing
+
+//@ func (*AIMDLimit).OnSample
+//@   maintains[C04] l
+//@   requires in: 0 <= rtt && 0 <= inFlight
+//@   requires big: l.limit < 1<<53 && l.increaseBy < 1<<53
+//@   ensures[C06] drop_rule: didDrop ==> l.limit == max(1, min(old(l.limit)-1, int(floor(float64(old(l.limit))*l.backOffRatio))))
+//@   ensures[C07] gate: !didDrop && inFlight < old(l.limit) ==> l.limit == old(l.limit)
+//@   ensures[C07] growth: !didDrop && inFlight >= old(l.limit) ==> l.limit == old(l.limit) + l.increaseBy
+//@   safety[C04]
+//@   owns[C17]
